@@ -79,6 +79,23 @@ func (s *Sim) opWeights() weights {
 	}
 	if s.faultOn("confirm_late") {
 		w["swap_race"] = 4
+		// a replacement is waiting for its confirmation right now: this is the moment to touch that application
+		for _, o := range s.shim.Owed {
+			if o.Type.String() == "PLACEHOLDER_REPLACED" {
+				w["swap_race"] = 16
+				break
+			}
+		}
+	}
+	if s.faultOn("deadline_race") {
+		// an application is Completing, or a gang application waits for its placeholder timeout: align with the deadline
+		for _, id := range s.shim.liveAppIDs() {
+			a := s.shim.Apps[id]
+			if n := len(a.States); (n > 0 && a.States[n-1] == "Completing") || (a.Gang && a.TimeoutMs > 0 && a.FirstPhAtMs > 0) {
+				w["timed"] = 18
+				break
+			}
+		}
 	}
 	return w
 }
